@@ -22,7 +22,9 @@ DOCSTRING = {
     "A[:, 1]": (":, 1", BASIC), "A[:2, 0]": (":2, 0", BASIC), "A[:2, :1]": (":2, :1", BASIC), "A[2:0:-1]": ("2:0:-1", BASIC),
     "A[1:]": ("1:", BASIC), "A[:2]": (":2", BASIC), "A[1:-1]": ("1:-1", BASIC), "A[1:2]": ("1:2", BASIC), "A[-1]": ("-1", BASIC),
     "A[0]": ("0", BASIC), "A[:0:-1]": (":0:-1", BASIC),
-    "A[i]": ("a0", ONE_T), "A[i+1:i+2]": ("a0:a1", BASIC + " (tensor-valued bounds: BDyn)"),
+    "A[i]": ("a0", ONE_T),
+    "A[i+1:i+2]": ("a0:a1", BASIC + " (tensor-valued bounds: BDyn; Props/C11_dyn.v C11_converter_dynamic_bounds_eq_python; also generated "
+                                    "with the arithmetic in the subscript, stream expr-bounds)"),
     "A[i:i+j, k]": ("a0:a1, a2", ONE_T),
     "A[::-1]": ("::-1", BASIC + " (listed as 'Not supported' in the docstring; accepted by both front ends and equal to NumPy)"),
 }
@@ -40,7 +42,9 @@ TUTORIAL_PHRASES = [
     ("does not yet support the use of arbitrary", "note: arbitrary tensors in index expressions not yet supported",
      "generated all the same (adv-forms); see the previous entry"),
     ("ellipsis or", "ellipsis / newaxis not supported",
-     "outside the theorems (no model); probed on every run: X[..., 0], X[None], X[None, 1] must fail or equal NumPy"),
+     "stream outside-forms (harness/c11_dyn.py): Ellipsis / None / True / False / float / str at every position of every basic tuple of "
+     "length <= 2 must fail or equal NumPy; model DynForms.run_conv_x / run_eager_x; Props/C11_dyn.v C11_unsupported_rejected_fixed / "
+     "_asread_refuted, C11_converter_bool_literal_rank_differs; X[..., 0], X[None], X[None, 1] also probed here"),
 ]
 
 
